@@ -27,3 +27,5 @@ package types
 // C07: a valid signal has a non-empty bounded id and positive power.
 //@ func (s *Signal) Validate
 //@ ensures err == nil <==> (len(s.ID) > 0 && s.Power > 0 && len(s.ID) <= MaxSignalIDCharacters)
+
+//@ keyfns VoteStoreKey SignalTotalPowerStoreKey ValidatorPriceListStoreKey PriceStoreKey SignalTotalPowerByPowerIndexKey
